@@ -135,7 +135,12 @@ NextBad(e) ==
     ELSE IF \E j \in 1..n : cs[j][4] /\ ~(\E g \in gr : g.pk = cs[j][1] /\ g.rev = cs[j][3] /\ g.val = cs[j][2])
          THEN "C07_CommittedOnly"
     ELSE IF ~e.cw /\ n > 0 THEN "C07_OpenWatchDelivers"
-    ELSE IF done /\ it2.replay # Rows(S.objs) THEN (IF e.cw THEN "C07_Converge" ELSE "C07_NoMiss")
+    \* an open channel with undelivered changes in the snapshot is a miss -- unless the commit that made them is
+    \* still under way (published, not returned: it closes the channel before it returns, see IterNext)
+    ELSE IF done /\ it2.replay # Rows(S.objs)
+         THEN (IF e.cw THEN "C07_Converge"
+               ELSE IF \E y \in DOMAIN wtx : wtx[y].st = "published" /\ it.t \in wtx[y].tabs THEN "ok"
+               ELSE "C07_NoMiss")
     ELSE IF done /\ \E g \in gr : g.rev > it.crev /\ << g.pk, g.rev >> \notin it2.dels THEN "C07_DeletesDelivered"
     ELSE "ok"
 
